@@ -532,15 +532,14 @@ class Sandbox:
     def _mock_builtins(self, data: dict, builtins: dict):
         builtins = builtins
         for name, value in builtins.items():
+            # Only the builtins are touched: the module's own globals belong
+            # to the student, who may have defined a function of the same name
             if value is True:
                 data['__builtins__'][name] = mocked.ORIGINAL_BUILTINS[name]
-                data[name] = mocked.ORIGINAL_BUILTINS[name]
             elif value is False:
                 data['__builtins__'][name] = mocked.disabled_builtin(name)
-                data[name] = mocked.disabled_builtin(name)
             else:
                 data['__builtins__'][name] = value
-                data[name] = value
 
     def _start_mocking(self, context: SandboxContext):
         """ Mock input, output, builtins, and modules """
@@ -805,7 +804,12 @@ class Sandbox:
         Returns:
 
         """
-        data['__builtins__'] = {}
+        # Refill the same dictionary: functions defined by earlier executions
+        # keep referring to the builtins mapping they were created with
+        if isinstance(data.get('__builtins__'), dict):
+            data['__builtins__'].clear()
+        else:
+            data['__builtins__'] = {}
         for name, value in mocked._default_builtins.items():
             data['__builtins__'][name] = value
 
